@@ -1,13 +1,13 @@
 package main
 
 import (
-	"github.com/libp2p/go-libp2p/p2p/host/eventbus"
 	"bufio"
 	"bytes"
 	"context"
 	"encoding/hex"
 	"encoding/json"
 	"fmt"
+	"github.com/libp2p/go-libp2p/p2p/host/eventbus"
 	"reflect"
 	"sort"
 	"strings"
@@ -118,7 +118,7 @@ type Peer struct {
 	identity *idp.Identity
 	cache    *memCache
 	odb      orbitdb.OrbitDB
-	rank     int // rank of the identity's public key in byte order (= clock id order)
+	rank     int        // rank of the identity's public key in byte order (= clock id order)
 	census   *busCensus // subscriptions open on this instance's event bus
 }
 
@@ -172,16 +172,16 @@ type World struct {
 	lenBefore      int  // log length before the write in progress
 	heldFirst      map[string]chan struct{}
 	heldTaken      map[string]chan struct{}
-	spinStop  chan struct{} // events family: readers spinning on the view
-	spinWG    sync.WaitGroup
-	spinPause int32
-	loadCancelled bool // restart … ctx=cancelled
-	legacyOf      map[int]<-chan events.Event // legacy channels handed out just before a store was closed
-	sigOverride *int // forge: the `sig` flag to declare instead of the measured one (a malleated signature verifies, but nobody signed it)
-	lastStore iface.Store // address family: the store of the last successful createdb
-	acSimple  bool     // scenario flag ac=simple: the `simple` access controller instead of the default `ipfs` one
-	acWrite   []string // its write list
-	reuseOpts      bool // address family: each peer passes one options value to every create/open
+	spinStop       chan struct{} // events family: readers spinning on the view
+	spinWG         sync.WaitGroup
+	spinPause      int32
+	loadCancelled  bool                        // restart … ctx=cancelled
+	legacyOf       map[int]<-chan events.Event // legacy channels handed out just before a store was closed
+	sigOverride    *int                        // forge: the `sig` flag to declare instead of the measured one (a malleated signature verifies, but nobody signed it)
+	lastStore      iface.Store                 // address family: the store of the last successful createdb
+	acSimple       bool                        // scenario flag ac=simple: the `simple` access controller instead of the default `ipfs` one
+	acWrite        []string                    // its write list
+	reuseOpts      bool                        // address family: each peer passes one options value to every create/open
 	peerOpts       map[int]*orbitdb.CreateDBOptions
 	unserved       map[int]bool // peers whose instance stopped taking direct-channel messages
 	sentMark       int
@@ -202,6 +202,7 @@ type World struct {
 	pendingEmit    chan struct{}
 	roots          map[string]int
 	extraStores    []iface.Store
+	lastSnapOK     bool // the last `snapsave` succeeded
 	heldHooks      map[string]chan struct{}
 	hookWaiting    map[string]int
 	lastForged     string
